@@ -1649,3 +1649,46 @@ func (o *z1owner) GoodZ1pop() int {
 func BadZ1pop(b *z1buf) int {
 	return b.PopAt(b.Head())
 }
+
+// ---- C5 (through a call): a blocking helper called under a lock that every way out needs --------------------------------------------
+
+type BadC5through struct {
+	mu   sync.Mutex
+	done chan struct{}
+	reqs chan uint32
+}
+
+func (s *BadC5through) Start() {
+	s.mu.Lock()
+	defer s.mu.Unlock()
+	go s.loop()
+}
+
+func (s *BadC5through) loop() {
+	for {
+		select {
+		case <-s.done:
+			return
+		case <-s.reqs:
+		}
+	}
+}
+
+func (s *BadC5through) Force(ssrc uint32) {
+	select {
+	case <-s.done:
+	case s.reqs <- ssrc:
+	}
+}
+
+func (s *BadC5through) Bind(ssrc uint32) {
+	s.mu.Lock()
+	defer s.mu.Unlock()
+	s.Force(ssrc)
+}
+
+func (s *BadC5through) Close() {
+	s.mu.Lock()
+	defer s.mu.Unlock()
+	close(s.done)
+}
